@@ -483,6 +483,36 @@ Proof.
   - intros s o s' out H1 H2 H3. rewrite <- Hs in H3 by auto. eapply biclique_step_wf; eauto.
 Qed.
 
+
+(* a Biclique produced by the constructor, any dict of inputs *)
+Theorem biclique_constructed_forward cs ns combine Bq ins ckw nkw :
+  biclique_new V CS NS compat cs ns combine = Ok Bq -> NoDup (keys ins) ->
+  bforward Bq ins ckw nkw = bspec_forward V CS NS CK NK ck0 nk0 cstep nstep Bq ins ckw nkw.
+Proof. intros H Hi. apply biclique_forward_spec; auto. eapply biclique_new_wf; eauto. Qed.
+
+
+(* what the constructor registers: the given modules, in the given order *)
+Lemma add_all_spec {A} (l : list (Z * A * option (V -> V))) : forall acc r,
+  add_all V l acc = Ok r -> r = acc ++ map (fun p => (fst (fst p), snd (fst p))) l.
+Proof.
+  induction l as [|[[k a] t] tl IH]; intros acc r; simpl.
+  - intros H; inversion H; subst. rewrite app_nil_r. reflexivity.
+  - destruct (mem k (keys acc)); [discriminate|]. intros H. rewrite (IH _ _ H), <- app_assoc. reflexivity.
+Qed.
+Lemma biclique_new_layer cs ns combine Bq :
+  biclique_new V CS NS compat cs ns combine = Ok Bq ->
+  conns (b_layer Bq) = map (fun p => (fst (fst p), snd (fst p))) cs /\
+  neurs (b_layer Bq) = map (fun p => (fst (fst p), snd (fst p))) ns.
+Proof.
+  unfold biclique_new. destruct cs as [|c cs']; [discriminate|]. destruct ns as [|n ns']; [discriminate|].
+  remember (c :: cs') as cs. remember (n :: ns') as ns.
+  destruct (add_all V cs []) as [cl|e] eqn:E1; [|discriminate].
+  destruct (add_all V ns []) as [nl|e] eqn:E2; [|discriminate].
+  unfold bind. destruct (forallb _ cl); [|discriminate].
+  intros H; inversion H; subst Bq. simpl.
+  rewrite (add_all_spec _ _ _ E1), (add_all_spec _ _ _ E2). auto.
+Qed.
+
 (* ================= output shapes ================= *)
 Section Shapes.
 Variable Sh : Type.
@@ -1192,5 +1222,39 @@ Theorem recurrent_clear_keep_feedback R xk :
   rstep R (RClear false true xk) = Ok (r_with V CS NS R (layer_fresh (r_layer R)) (r_fbs R), None).
 Proof. intros HL Hk. simpl. unfold recurrent_clear. rewrite layer_clear_fresh; auto. Qed.
 
+
+(* ---- clear() followed by anything = the freshly built layer (carrying the learned state) on the same operations:
+   the general form of replay determinism, valid also when forward learns (ALIF adaptations in training mode) ---- *)
+Theorem serial_clear_then_run S0 ops S outs xk ops2 :
+  LI (s_layer S0) -> Forall sop_ok ops -> keepk xk -> run sstep S0 ops = Ok (S, outs) ->
+  run sstep S (SClear true xk :: ops2) =
+  ('(S2, o2) <- run sstep (serial_fresh S) ops2 ;; Ok (S2, None :: o2)).
+Proof.
+  intros H0 Ho Hk Hr. cbn [run]. rewrite (serial_clear_restores_dynamic S0 ops S outs xk H0 Ho Hk Hr). reflexivity.
+Qed.
+Theorem biclique_clear_then_run B0 ops Bq outs xk ops2 :
+  LI (b_layer B0) -> Forall bop_ok ops -> keepk xk -> run bstep B0 ops = Ok (Bq, outs) ->
+  run bstep Bq (BClear true xk :: ops2) =
+  ('(B2, o2) <- run bstep (biclique_fresh Bq) ops2 ;; Ok (B2, None :: o2)).
+Proof.
+  intros H0 Ho Hk Hr. cbn [run]. rewrite (biclique_clear_restores_dynamic B0 ops Bq outs xk H0 Ho Hk Hr). reflexivity.
+Qed.
+Theorem recurrent_clear_then_run R0 ops R outs xk ops2 :
+  LI (r_layer R0) -> Forall rop_ok2 ops -> keepk xk -> run rstep R0 ops = Ok (R, outs) ->
+  run rstep R (RClear true true xk :: ops2) =
+  ('(R2, o2) <- run rstep (recurrent_fresh R) ops2 ;; Ok (R2, None :: o2)).
+Proof.
+  intros H0 Ho Hk Hr. cbn [run]. rewrite (recurrent_clear_restores_dynamic R0 ops R outs xk H0 Ho Hk Hr). reflexivity.
+Qed.
+
 End Clear.
+
+(* clear() succeeds on every layer, whatever its state and flags (in the model clear cannot raise; that the real
+   clear() does not raise is checked on the implementation by the oracle) *)
+Theorem clear_total :
+  (forall S sub xk, exists S', sstep S (SClear sub xk) = Ok (S', None)) /\
+  (forall Bq sub xk, exists B', bstep Bq (BClear sub xk) = Ok (B', None)) /\
+  (forall R cf sub xk, exists R', rstep R (RClear cf sub xk) = Ok (R', None)).
+Proof. repeat split; intros; eexists; reflexivity. Qed.
+
 End Proofs.
